@@ -75,3 +75,8 @@ CORPUS += [
     M("constructor-min-length-17", C, "        self.independent_aux_heat = None\n\n        self._parse(payload)", "        self.independent_aux_heat = None\n\n        if len(payload) < 17:\n            raise InvalidResponseException(\"truncated\")\n        self._parse(payload)"),
     M("n-constructor-min-length-16", C, "        self.independent_aux_heat = None\n\n        self._parse(payload)", "        self.independent_aux_heat = None\n\n        if len(payload) < 16:\n            raise InvalidResponseException(\"truncated\")\n        self._parse(payload)", "S"),
 ]
+# round 8 (C11.d): unknown fan speeds raise (no _missing_ hook); refresh applies every response
+CORPUS += [
+    M("missing-hook-returns-default", "msmart/utils.py", "    @classmethod\n    def list(cls)", "    @classmethod\n    def _missing_(cls, value):\n        return cls.DEFAULT\n\n    @classmethod\n    def list(cls)"),
+    M("refresh-skips-unchanged-state", D, "        for response in responses:\n            self._update_state(response)", "        for response in responses:\n            if isinstance(response, StateResponse) and response.payload == getattr(self, \"_last\", None):\n                continue\n            self._update_state(response)"),
+]
